@@ -244,6 +244,9 @@ func (c *Ctx) trueCellKeys(fn *ssa.Function, x *eng.Explorer, isTrueTest func(ss
 // modeBitTestsOn is modeBitTests restricted to tests whose operand is
 // X.Mode() for a FileInfo X satisfying recv.
 func (c *Ctx) modeBitTestsOn(fn *ssa.Function, x *eng.Explorer, bit int64, recv func(ssa.Value) bool) []string {
+	if eng.Scope == nil {
+		defer c.scope(fn)()
+	}
 	var keys []string
 	eng.Instrs(fn, func(in ssa.Instruction) {
 		v, ok := in.(ssa.Value)
@@ -271,6 +274,9 @@ func (c *Ctx) modeBitTestsOn(fn *ssa.Function, x *eng.Explorer, bit int64, recv 
 // FileInfo satisfying recv - fi.IsDir(), fi.Mode().IsDir(), or a ModeDir bit
 // test of fi.Mode() - an explorer key whose truth means "directory".
 func (c *Ctx) dirTestKeys(fn *ssa.Function, x *eng.Explorer, recv func(ssa.Value) bool) []string {
+	if eng.Scope == nil {
+		defer c.scope(fn)()
+	}
 	var keys []string
 	modeOf := func(v ssa.Value) (ssa.Value, bool) {
 		call, ok := eng.Canon(v).(*ssa.Call)
